@@ -203,6 +203,7 @@ WitVal(k) == CASE k = 1 -> ~W_NoCrossCall [] k = 2 -> ~W_NoCaught [] k = 3 -> ~W
                [] k = 8 -> ~W_NoWrapperCall [] k = 9 -> ~W_NoWrappedBack [] k = 10 -> ~W_NoDecoTrigger [] k = 11 -> ~W_NoFactory
                [] k = 12 -> ~W_NoTaskCrossing [] k = 13 -> ~W_NoCreatorElsewhere [] k = 14 -> ~W_NoTimeout
 ASSUME \A k \in 1..Len(WitNames) : TLCSet(k, FALSE)
-WitTrack  == \A k \in 1..Len(WitNames) : WitVal(k) => TLCSet(k, TRUE)
+WitOf == IF Mode = "plain" THEN 1..4 ELSE IF Mode = "conc" THEN 5..7 ELSE IF Mode = "deco" THEN 8..11 ELSE IF Mode = "task" THEN 12..14 ELSE {}
+WitTrack  == \A k \in WitOf : (~TLCGet(k) /\ WitVal(k)) => TLCSet(k, TRUE)       \* only the witnesses of the grammar in use, until seen
 WitReport == PrintT("INFO " \o ToJson([seen |-> { WitNames[k] : k \in { j \in 1..Len(WitNames) : TLCGet(j) } }]))
 =============================================================================
